@@ -347,7 +347,12 @@ class FunctionExtension(Expression):
     ) -> List[object]:
         _args: List[object] = []
         for idx, arg in enumerate(args):
-            if func.arg_types[idx] != ExpressionType.NODES and isinstance(
+            if func.arg_types[idx] == ExpressionType.LOGICAL and isinstance(
+                arg, JSONPathNodeList
+            ):
+                # A nodelist given to a LogicalType parameter is an existence test.
+                _args.append(len(arg) > 0)
+            elif func.arg_types[idx] != ExpressionType.NODES and isinstance(
                 arg, JSONPathNodeList
             ):
                 if len(arg) == 0:
